@@ -170,6 +170,15 @@ func c02Diff(got, want c02Rec) string {
 	return ""
 }
 
+// c02ComparePrefix compares the first len(want) records only (got is already
+// complete, so a shorter got is a missing record).
+func c02ComparePrefix(got, want []c02Rec) *kit.Fail {
+	if len(got) > len(want) {
+		got = got[:len(want)]
+	}
+	return c02Compare(got, want)
+}
+
 func c02Compare(got, want []c02Rec) *kit.Fail {
 	for i := 0; i < len(got) || i < len(want); i++ {
 		if i >= len(got) {
@@ -316,3 +325,778 @@ func c02NewInput(text string, chunk int) io.Reader {
 	return &c02ChunkReader{text, chunk}
 }
 
+// ---------------------------------------------------------------------------
+// Class: one text through one Reader
+
+type c02TextCase struct {
+	Text  kit.B
+	Name  kit.B // file name given to NewReader (non-empty)
+	Chunk int   // >0: the io.Reader returns at most Chunk bytes per call
+}
+
+func c02CheckText(c c02TextCase) *kit.Fail {
+	text := string(c.Text)
+	name := string(c.Name)
+	rd := benchfmt.NewReader(c02NewInput(text, c.Chunk), name)
+	var cl c02Collector
+	limit := len(text) + 8
+	for n := 0; rd.Scan(); n++ {
+		if n > limit {
+			return kit.Failf("too-many-records", "more than %d records from %d bytes of input", limit, len(text))
+		}
+		if f := cl.take(rd.Result()); f != nil {
+			return f
+		}
+	}
+	err := rd.Err()
+	if f := cl.recheckClones(); f != nil {
+		return f
+	}
+	m := refread.New()
+	out := m.Read(name, text, refread.Options{StopAtTooLong: err != nil})
+	if err != nil && !out.Stopped {
+		return kit.Failf("unexpected-io-error", "Err()=%v but no line is longer than %d bytes", err, refread.MaxLine)
+	}
+	want := c02Want(out.Records, name, map[string]string{})
+	if f := c02Compare(cl.got, want); f != nil {
+		return f
+	}
+	if f := c02CheckUnits(rd.Units(), m.Units); f != nil {
+		return f
+	}
+	c02CountStats(out.Stats, out.TooLongLine != 0, err != nil)
+	return nil
+}
+
+func c02CountStats(s refread.Stats, tooLong, stopped bool) {
+	kit.Count("results compared", int64(s.Results))
+	kit.Count("syntax errors compared", int64(s.Errors))
+	kit.Count("unit metadata records compared", int64(s.UnitRecords))
+	kit.Count("unit metadata conflicts", int64(s.UnitConflicts))
+	kit.Count("unit metadata repeats (ignored)", int64(s.UnitRepeats))
+	kit.Count("config deletions", int64(s.Deletes))
+	kit.Count("config re-sets after deletion", int64(s.ReSets))
+	kit.Count("config value changes", int64(s.Changes))
+	if s.Distinct > 1024 {
+		kit.Count("inputs overflowing the intern table (>1024 distinct strings)", 1)
+	}
+	if tooLong {
+		kit.Count("inputs with a line over 64KiB", 1)
+	}
+	if stopped {
+		kit.Count("inputs ending in Err()!=nil at the over-long line", 1)
+	}
+}
+
+func c02StatsNonTrivial(s refread.Stats) bool {
+	return s.Results >= 1 && (s.Deletes > 0 || s.ReSets > 0 || s.Errors > 0 || s.UnitConflicts > 0 || s.Distinct > 1024)
+}
+
+func c02TextNonTrivial(c c02TextCase) bool {
+	out := refread.New().Read("x", string(c.Text), refread.Options{})
+	return c02StatsNonTrivial(out.Stats)
+}
+
+// ---------------------------------------------------------------------------
+// Class: sequences of files through one reused reader (Files or Reader.Reset)
+
+type c02File struct {
+	Name kit.B // base name inside the scratch directory
+	Text kit.B
+}
+
+type c02KV struct{ K, V kit.B }
+
+type c02Path struct {
+	File    int   // index into Files; -1: a path that does not exist (Files mode only)
+	Label   kit.B // label part of "label=path" when Labeled
+	Labeled bool
+	// Reset mode only: tool labels (dot-prefixed keys) and early abandon.
+	Extra     []c02KV
+	StopAfter int // >0: abandon this file after that many records
+}
+
+type c02FilesCase struct {
+	Files       []c02File
+	Paths       []c02Path
+	AllowLabels bool
+	// ViaReset: drive one benchfmt.Reader with Reset(...) per entry instead of
+	// benchfmt.Files (texts are read from memory; labels are passed as initConfig).
+	ViaReset bool
+}
+
+func c02CheckFiles(c c02FilesCase) *kit.Fail {
+	if c.ViaReset {
+		return c02CheckReset(c)
+	}
+	dir, err := os.MkdirTemp("/var/tmp", "verif-c02-")
+	if err != nil {
+		panic("verif C02: cannot create scratch directory: " + err.Error())
+	}
+	defer os.RemoveAll(dir)
+	for _, f := range c.Files {
+		if err := os.WriteFile(filepath.Join(dir, string(f.Name)), []byte(f.Text), 0o644); err != nil {
+			panic("verif C02: cannot write scratch file: " + err.Error())
+		}
+	}
+	type entry struct {
+		path    string
+		labeled bool
+		label   string
+		file    int
+	}
+	var entries []entry
+	var args []string
+	argCount := map[string]int{} // occurrences of each unlabelled path string
+	total := 0
+	for _, p := range c.Paths {
+		e := entry{file: p.File}
+		if p.File >= 0 {
+			e.path = filepath.Join(dir, string(c.Files[p.File].Name))
+			total += len(c.Files[p.File].Text)
+		} else {
+			e.path = filepath.Join(dir, "no-such-file")
+		}
+		arg := e.path
+		if p.Labeled && c.AllowLabels {
+			arg = string(p.Label) + "=" + e.path
+			e.labeled, e.label = true, string(p.Label)
+		} else {
+			argCount[e.path]++
+		}
+		entries = append(entries, e)
+		args = append(args, arg)
+	}
+
+	fs := &benchfmt.Files{Paths: args, AllowLabels: c.AllowLabels}
+	var cl c02Collector
+	limit := total + 8*len(args) + 8
+	for n := 0; fs.Scan(); n++ {
+		if n > limit {
+			return kit.Failf("too-many-records", "more than %d records from %d bytes of input", limit, total)
+		}
+		if f := cl.take(fs.Result()); f != nil {
+			return f
+		}
+	}
+	gotErr := fs.Err()
+	if f := cl.recheckClones(); f != nil {
+		return f
+	}
+
+	m := refread.New()
+	var want []c02Rec
+	var stats refread.Stats
+	stopped, tooLong := false, false
+	usedDup := map[string]int{} // disambiguated label -> entry that used it
+	for i, e := range entries {
+		if e.file < 0 {
+			if gotErr == nil {
+				return kit.Failf("missing-io-error", "path #%d does not exist but Err()==nil", i)
+			}
+			stopped = true
+			break
+		}
+		out := m.Read(e.path, string(c.Files[e.file].Text), refread.Options{StopAtTooLong: gotErr != nil})
+		tooLong = tooLong || out.TooLongLine != 0
+		stats = c02AddStats(stats, out.Stats)
+		// Expected .file label. Labelled: the label, verbatim. Path given
+		// once: the path. Path given several times: the documentation
+		// promises the path followed by "#N" without fixing N, so the label
+		// observed on this entry's first result is validated (shape, and
+		// not used by another occurrence) and then expected on all of them.
+		lab := e.path
+		switch {
+		case e.labeled:
+			lab = e.label
+			kit.Count("labelled path entries", 1)
+		case argCount[e.path] > 1:
+			kit.Count("duplicate path entries", 1)
+			lab = e.path + "#?"
+			// records before len(want) have already been compared; this
+			// entry's records follow, up to the next change of file or
+			// restart of the line numbers
+			lastLine := 0
+			for _, g := range cl.got[min(len(want), len(cl.got)):] {
+				if g.file != e.path || g.line < lastLine {
+					break
+				}
+				lastLine = g.line
+				if g.kind != refread.KindResult {
+					continue
+				}
+				obs := g.labels[".file"]
+				suffix, ok := strings.CutPrefix(obs, e.path+"#")
+				if _, err := strconv.ParseUint(suffix, 10, 32); !ok || err != nil {
+					return kit.Failf("dup-label", "path #%d %q is given %d times but its result at line %d carries .file=%q (want the path followed by \"#N\")", i, e.path, argCount[e.path], g.line, obs)
+				}
+				if j, used := usedDup[obs]; used {
+					return kit.Failf("dup-label", "path entries #%d and #%d (%q) share the label %q", j, i, e.path, obs)
+				}
+				usedDup[obs] = i
+				lab = obs
+				break
+			}
+		}
+		want = append(want, c02Want(out.Records, e.path, map[string]string{".file": lab})...)
+		if f := c02ComparePrefix(cl.got, want); f != nil {
+			return f
+		}
+		if out.Stopped {
+			stopped = true
+			break
+		}
+	}
+	if gotErr != nil && !stopped {
+		return kit.Failf("unexpected-io-error", "Err()=%v but every file exists and no line is longer than %d bytes", gotErr, refread.MaxLine)
+	}
+	if f := c02Compare(cl.got, want); f != nil {
+		return f
+	}
+	if f := c02CheckUnits(fs.Units(), m.Units); f != nil {
+		return f
+	}
+	c02CountStats(stats, tooLong, gotErr != nil)
+	kit.Count("file sequences through Files", 1)
+	return nil
+}
+
+func c02AddStats(a, b refread.Stats) refread.Stats {
+	a.Lines += b.Lines
+	a.Results += b.Results
+	a.Errors += b.Errors
+	a.UnitRecords += b.UnitRecords
+	a.UnitConflicts += b.UnitConflicts
+	a.UnitRepeats += b.UnitRepeats
+	a.Sets += b.Sets
+	a.Deletes += b.Deletes
+	a.ReSets += b.ReSets
+	a.Changes += b.Changes
+	a.Ignored += b.Ignored
+	if b.Distinct > a.Distinct {
+		a.Distinct = b.Distinct
+	}
+	return a
+}
+
+// c02CheckReset drives one Reader (zero value + Reset, as documented) over the
+// sequence of texts, passing tool labels as initConfig and abandoning some
+// files early.
+func c02CheckReset(c c02FilesCase) *kit.Fail {
+	var rd benchfmt.Reader
+	var cl c02Collector
+	m := refread.New()
+	var want []c02Rec
+	var stats refread.Stats
+	for i, p := range c.Paths {
+		if p.File < 0 {
+			continue
+		}
+		f := c.Files[p.File]
+		text, name := string(f.Text), string(f.Name)
+		labels := map[string]string{}
+		var init []string
+		for _, kv := range p.Extra {
+			init = append(init, string(kv.K), string(kv.V))
+			labels[string(kv.K)] = string(kv.V)
+		}
+		rd.Reset(strings.NewReader(text), name, init...)
+		limit := len(text) + 8
+		n := 0
+		ranOut := false
+		for {
+			if p.StopAfter > 0 && n >= p.StopAfter {
+				break
+			}
+			if !rd.Scan() {
+				ranOut = true
+				break
+			}
+			n++
+			if n > limit {
+				return kit.Failf("too-many-records", "more than %d records from %d bytes of input (entry #%d)", limit, len(text), i)
+			}
+			if f := cl.take(rd.Result()); f != nil {
+				return f
+			}
+		}
+		var err error
+		if ranOut {
+			err = rd.Err()
+		}
+		out := m.Read(name, text, refread.Options{StopAtTooLong: err != nil, MaxRecords: p.StopAfter})
+		if err != nil && !out.Stopped {
+			return kit.Failf("unexpected-io-error", "entry #%d: Err()=%v but no line is longer than %d bytes", i, err, refread.MaxLine)
+		}
+		recs := out.Records
+		if p.StopAfter > 0 && len(recs) > p.StopAfter {
+			recs = recs[:p.StopAfter]
+			kit.Count("files abandoned before EOF (Reset)", 1)
+		}
+		want = append(want, c02Want(recs, name, labels)...)
+		stats = c02AddStats(stats, out.Stats)
+		// compare eagerly so that the entry is named in the message
+		if f := c02Compare(cl.got, want); f != nil {
+			f.Msg = fmt.Sprintf("after entry #%d (%q): %s", i, name, f.Msg)
+			return f
+		}
+		if f := c02CheckUnits(rd.Units(), m.Units); f != nil {
+			return f
+		}
+	}
+	if f := cl.recheckClones(); f != nil {
+		return f
+	}
+	c02CountStats(stats, false, false)
+	kit.Count("file sequences through Reader.Reset", 1)
+	return nil
+}
+
+func c02FilesNonTrivial(c c02FilesCase) bool {
+	if len(c.Paths) < 2 {
+		return false
+	}
+	m := refread.New()
+	results := 0
+	for _, p := range c.Paths {
+		if p.File < 0 {
+			break
+		}
+		results += m.Read("x", string(c.Files[p.File].Text), refread.Options{}).Stats.Results
+	}
+	return results >= 1
+}
+
+// ---------------------------------------------------------------------------
+// Generators
+
+var (
+	c02Keys  = []string{"a", "b", "k2", "goos", "pkg", "key-x", "é", "k\xff", "note", "cpu"}
+	c02Vals  = []string{"1", "2", "x y", "v\t", "a:b", "ünï", "\xff\xfe", "Benchmark", "Unit u a=b", "linux", "golang.org/x/perf", "\r", "x\r", "0", "-", "\u00a0z", "z\u3000", "BenchmarkX 1 1 ns/op", "k: v"}
+	c02WS    = []string{" ", "\t", "  ", " \t ", "\u00a0", "\u2003", "\u3000", "\u0085", "\v", "\f", "\r", " \r "}
+	c02Units = []string{"ns/op", "MB/s", "B/op", "allocs/op", "sec/op", "B/s", "ns", "MB", "foo", "ns/MB", "x-ns", "MB*ns", "ünit", "u\xff", "%", "ns/op/GC", "a=b"}
+	c02Nums  = []string{"1", "0", "-0", "100", "1.5", "2e3", "1e-9", "+Inf", "-Inf", "NaN", "inf", "0x1p-2", ".5", "5.", "1e+06", "123456789012345678901234567890", "9223372036854775807", "9223372036854775808", "4.9e-324", "1.7976931348623157e308"}
+	c02BadNu = []string{"1_0", "1e999", "abc", "1,5", "0x", "--1", "1e", "ns/op", "١"}
+	c02Names = []string{"X", "Foo/size=4k-16", "Copy-8", "Ünï", "X\xff", "/", "-", "X:y", "a=b", "Unit", "Benchmark", "x"}
+	c02Iters = []string{"1", "100", "0", "-5", "+3", "1000000000", "7", "12345"}
+	c02BadIt = []string{"x", "1.5", "99999999999999999999", "0x10", "1_000", "", "1e3", "٣"}
+	c02MKeys = []string{"better", "assume", "foo", "é", "k"}
+	c02MVals = []string{"higher", "lower", "exact", "nothing", "", "a=b", "x", "\xff"}
+	c02Junk  = []string{"", "PASS", "ok  \tgolang.org/x/perf\t0.1s", "--- FAIL: TestX (0.00s)", "goos linux", "FAIL", "=== RUN   TestX", "    x_test.go:12: note: hello", "U", "B", ":", " ", "\t", "exit status 1"}
+)
+
+func c02Sp(r *kit.Rand) string {
+	if r.Chance(0.8) {
+		return " "
+	}
+	return kit.Pick(r, c02WS)
+}
+
+func c02Key(r *kit.Rand) string {
+	if r.Chance(0.12) {
+		return "k" + strconv.Itoa(r.Intn(40))
+	}
+	return kit.Pick(r, c02Keys)
+}
+
+func c02ConfigLine(r *kit.Rand) string {
+	k := c02Key(r)
+	switch r.Intn(12) {
+	case 0, 1, 2:
+		return k + kit.Pick(r, []string{":", ":", ": ", ":\t ", ":  "})
+	case 3:
+		return kit.Pick(r, []string{"Key: v", "k ey: v", k + ":v", ":v", k, "kEy: v", "k\u00a0x: v", k + ":\u00a0v", k + ":\vv",
+			"1k: v", "É: v", k + " : v", k + "::", k + ": :", "\u00e9\u00c9: v", "_k: v", "k_: v", "ǆ: v", "ǅ: v", k + ":\rv", "\xffk: v"})
+	}
+	v := kit.Pick(r, c02Vals)
+	if r.Chance(0.2) {
+		v = r.Bytes(r.Range(1, 6), "abcxyz019 :\t=")
+		v = strings.TrimLeft(v, " \t") + "v"
+	}
+	return k + ":" + kit.Pick(r, []string{" ", " ", " ", "\t", "  ", " \t"}) + v
+}
+
+func c02UnitLine(r *kit.Rand) string {
+	if r.Chance(0.15) {
+		return kit.Pick(r, []string{"Unit", "Unit ", "Units ns/op better=lower", "UnitX a=b", "unit ns/op a=b", "Unit ns/op =x", "Unit ns/op novalue",
+			"Unit ns/op a=b a=b a=c", "U", "Unit\u00a0ns/op\u3000better=lower", "Unit\tB/op\tbetter=lower", "Unit: x", "Unit x", "Unit x = y=", "Unit sec/op better=higher", "Unit ns/op better=higher"})
+	}
+	var sb strings.Builder
+	sb.WriteString("Unit")
+	sb.WriteString(c02Sp(r))
+	sb.WriteString(kit.Pick(r, c02Units))
+	for i, n := 0, r.Range(0, 3); i < n; i++ {
+		sb.WriteString(c02Sp(r))
+		if r.Chance(0.08) {
+			sb.WriteString(kit.Pick(r, []string{"=v", "novalue", "=", "k"}))
+			continue
+		}
+		sb.WriteString(kit.Pick(r, c02MKeys))
+		sb.WriteByte('=')
+		sb.WriteString(kit.Pick(r, c02MVals))
+	}
+	if r.Chance(0.1) {
+		sb.WriteString(c02Sp(r))
+	}
+	return sb.String()
+}
+
+func c02BenchLine(r *kit.Rand) string {
+	name := kit.Pick(r, c02Names)
+	if r.Chance(0.2) {
+		name = r.Bytes(r.Range(1, 8), "XYZabc/-=019")
+	}
+	switch r.Intn(24) {
+	case 0:
+		return "Benchmark" + name
+	case 1:
+		return "Benchmark" + name + kit.Pick(r, c02WS)
+	case 2:
+		return "Benchmark"
+	case 3:
+		return "Benchmark" + c02Sp(r) + "1 2 ns/op"
+	case 4:
+		return kit.Pick(r, []string{"benchmarkX 1 1 ns/op", " BenchmarkX 1 1 ns/op", "BenchmarX 1 1 ns/op", "Benchmarking: foo", "BENCHMARKX 1 1 ns",
+			"\tBenchmarkX 1 2 ns/op", "Benchmark:", "benchmark: x", "Benchmark\u00a0", "Benchmark 1", "BenchmarkX 1 2", "BenchmarkX 1 2 ns 3"})
+	}
+	var sb strings.Builder
+	sb.WriteString("Benchmark")
+	sb.WriteString(name)
+	sb.WriteString(c02Sp(r))
+	if r.Chance(0.06) {
+		sb.WriteString(kit.Pick(r, c02BadIt))
+	} else {
+		sb.WriteString(kit.Pick(r, c02Iters))
+	}
+	n := r.Range(1, 4)
+	switch {
+	case r.Chance(0.03):
+		n = 0
+	case r.Chance(0.03):
+		n = r.Range(31, 70)
+	}
+	for i := 0; i < n; i++ {
+		sb.WriteString(c02Sp(r))
+		switch {
+		case r.Chance(0.03):
+			sb.WriteString(kit.Pick(r, c02BadNu))
+		case r.Chance(0.4):
+			sb.WriteString(strconv.FormatFloat(r.LogUniform(-3, 9), 'g', r.Range(1, 8), 64))
+		default:
+			sb.WriteString(kit.Pick(r, c02Nums))
+		}
+		if i == n-1 && r.Chance(0.04) {
+			break // missing unit
+		}
+		sb.WriteString(c02Sp(r))
+		sb.WriteString(kit.Pick(r, c02Units))
+	}
+	if r.Chance(0.1) {
+		sb.WriteString(kit.Pick(r, c02WS))
+	}
+	return sb.String()
+}
+
+func c02JunkLine(r *kit.Rand) string {
+	if r.Chance(0.3) {
+		n := r.Range(0, 24)
+		b := make([]byte, n)
+		for i := range b {
+			b[i] = byte(r.Intn(256))
+			if b[i] == '\n' {
+				b[i] = ' '
+			}
+		}
+		return string(b)
+	}
+	return kit.Pick(r, c02Junk)
+}
+
+func c02Line(r *kit.Rand) string {
+	switch x := r.Intn(100); {
+	case x < 34:
+		return c02ConfigLine(r)
+	case x < 46:
+		return c02UnitLine(r)
+	case x < 86:
+		return c02BenchLine(r)
+	default:
+		return c02JunkLine(r)
+	}
+}
+
+func c02Term(r *kit.Rand) string {
+	switch x := r.Intn(100); {
+	case x < 88:
+		return "\n"
+	case x < 98:
+		return "\r\n"
+	default:
+		return "\r\r\n"
+	}
+}
+
+const c02MutAlphabet = "\n\r :=\tBU\xff\xc2\x85\xa0\xe2\x80\x83Z0-\xc3\xa9eikntr"
+
+func c02Mutate(r *kit.Rand, s string) string {
+	b := []byte(s)
+	for k := r.Range(1, 4); k > 0; k-- {
+		ch := c02MutAlphabet[r.Intn(len(c02MutAlphabet))]
+		if r.Chance(0.2) {
+			ch = byte(r.Intn(256))
+		}
+		switch op := r.Intn(3); {
+		case len(b) == 0 || op == 0: // insert
+			i := r.Intn(len(b) + 1)
+			b = append(b[:i], append([]byte{ch}, b[i:]...)...)
+		case op == 1: // replace
+			b[r.Intn(len(b))] = ch
+		default: // delete
+			i := r.Intn(len(b))
+			b = append(b[:i], b[i+1:]...)
+		}
+	}
+	return string(b)
+}
+
+func c02GenText(r *kit.Rand, maxLines int) string {
+	n := r.Range(1, maxLines)
+	if r.Chance(0.3) {
+		n = r.Range(1, 1+maxLines/4)
+	}
+	var sb strings.Builder
+	for i := 0; i < n; i++ {
+		sb.WriteString(c02Line(r))
+		if i == n-1 && r.Chance(0.2) {
+			break
+		}
+		sb.WriteString(c02Term(r))
+	}
+	s := sb.String()
+	if r.Chance(0.3) {
+		s = c02Mutate(r, s)
+	}
+	return s
+}
+
+func c02GenChunk(r *kit.Rand) int {
+	switch r.Intn(6) {
+	case 0:
+		return 1
+	case 1:
+		return r.Range(2, 17)
+	case 2:
+		return r.Range(100, 5000)
+	}
+	return 0
+}
+
+func c02GenGrammar(r *kit.Rand, i int) c02TextCase {
+	return c02TextCase{Text: kit.B(c02GenText(r, 60)), Name: kit.B(kit.Pick(r, []string{"in", "a/b.txt", "x y", "-", "ü.txt"})), Chunk: c02GenChunk(r)}
+}
+
+// c02GenIntern produces more distinct keys, units, metadata keys and values
+// than the reader's intern table (1024) holds, with deletions and re-sets in a
+// large configuration.
+func c02GenIntern(r *kit.Rand, i int) c02TextCase {
+	n := r.Range(1100, 1500)
+	var sb strings.Builder
+	live := []int{}
+	for k := 0; k < n; k++ {
+		switch x := r.Intn(100); {
+		case x < 62:
+			fmt.Fprintf(&sb, "k%d: v%d\n", k, r.Intn(n))
+			live = append(live, k)
+		case x < 80 && len(live) > 0: // delete a live key
+			j := r.Intn(len(live))
+			fmt.Fprintf(&sb, "k%d:\n", live[j])
+			if r.Chance(0.3) { // and set it again
+				fmt.Fprintf(&sb, "k%d: again%d\n", live[j], k)
+			} else {
+				live[j] = live[len(live)-1]
+				live = live[:len(live)-1]
+			}
+		case x < 88:
+			fmt.Fprintf(&sb, "Unit u%d k%d=v%d\n", k, k, k)
+		case x < 90:
+			fmt.Fprintf(&sb, "Unit u%d k%d=w\n", r.Intn(k+1), r.Intn(k+1))
+		case x < 93:
+			sb.WriteString(c02Line(r) + "\n")
+		default:
+			fmt.Fprintf(&sb, "BenchmarkN%d %d %d u%d %d unit%d\n", k, k+1, r.Intn(1000), k, r.Intn(1000), r.Intn(n))
+		}
+	}
+	fmt.Fprintf(&sb, "BenchmarkLast 1 1 ns/op\n")
+	return c02TextCase{Text: kit.B(sb.String()), Name: "big", Chunk: c02GenChunk(r) &^ 1}
+}
+
+// c02GenLong produces lines up to and beyond the 64 KiB line limit.
+func c02GenLong(r *kit.Rand, i int) c02TextCase {
+	pad := func(prefix string, fill string, total int) string {
+		var sb strings.Builder
+		sb.WriteString(prefix)
+		for sb.Len()+len(fill) <= total {
+			sb.WriteString(fill)
+		}
+		for sb.Len() < total {
+			sb.WriteByte('x')
+		}
+		return sb.String()
+	}
+	length := func() int {
+		switch r.Intn(8) {
+		case 0:
+			return refread.MaxLine // longest line that must be accepted
+		case 1:
+			return refread.MaxLine + 1
+		case 2:
+			return refread.MaxLine - r.Intn(3)
+		case 3:
+			return refread.MaxLine + 2 + r.Intn(5000)
+		case 4:
+			return r.Range(130000, 140000)
+		default:
+			return r.Range(4000, 60000)
+		}
+	}
+	var sb strings.Builder
+	sb.WriteString("a: 1\nBenchmarkFirst 1 1 ns/op\n")
+	for k, n := 0, r.Range(1, 3); k < n; k++ {
+		L := length()
+		term := "\n"
+		if r.Chance(0.2) {
+			term = "\r\n"
+			L-- // the '\r' counts
+		}
+		switch r.Intn(5) {
+		case 0:
+			sb.WriteString(pad("note: ", "x", L))
+		case 1:
+			sb.WriteString(pad("BenchmarkLong 1", " 1 ns/op", L))
+		case 2:
+			sb.WriteString(pad("PASS ", "junk ", L))
+		case 3:
+			sb.WriteString(pad("Unit ns/op", " k=v", L))
+		default:
+			sb.WriteString(pad("BenchmarkBad 1 2 ns/op x", "y", L))
+		}
+		sb.WriteString(term)
+		sb.WriteString(c02GenText(r, 6))
+		if !strings.HasSuffix(sb.String(), "\n") {
+			sb.WriteByte('\n')
+		}
+		fmt.Fprintf(&sb, "b: %d\nBenchmarkAfter%d 2 3 ns/op\n", k, k)
+	}
+	s := sb.String()
+	if r.Chance(0.2) {
+		s = strings.TrimSuffix(s, "\n")
+	}
+	return c02TextCase{Text: kit.B(s), Name: "long", Chunk: c02GenChunk(r) &^ 1}
+}
+
+func c02GenFiles(r *kit.Rand, i int) c02FilesCase {
+	var c c02FilesCase
+	c.ViaReset = r.Chance(0.3)
+	c.AllowLabels = r.Bool()
+	nf := r.Range(1, 4)
+	for k := 0; k < nf; k++ {
+		name := fmt.Sprintf("f%d.txt", k)
+		if !c.AllowLabels && !c.ViaReset && r.Chance(0.15) {
+			name = fmt.Sprintf("lab=f%d", k) // '=' is part of the name when labels are off
+		}
+		text := c02GenText(r, 25)
+		if r.Chance(0.03) && !c.ViaReset {
+			text += "\n" + strings.Repeat("z", refread.MaxLine+1+r.Intn(100)) + "\nBenchmarkAfterLong 1 1 ns/op\n"
+		}
+		c.Files = append(c.Files, c02File{Name: kit.B(name), Text: kit.B(text)})
+	}
+	np := r.Range(1, 6)
+	labels := []string{"x", "lab", "ünï", "a b", "\xff", "f0.txt", "#1", "x"}
+	for k := 0; k < np; k++ {
+		p := c02Path{File: r.Intn(nf)}
+		if r.Chance(0.4) {
+			p.Labeled = true
+			p.Label = kit.B(kit.Pick(r, labels))
+		}
+		if c.ViaReset {
+			for j, n := 0, r.Range(0, 3); j < n; j++ {
+				p.Extra = append(p.Extra, c02KV{kit.B(kit.Pick(r, []string{".file", ".x", ".tool", ".é"})), kit.B(kit.Pick(r, labels))})
+			}
+			if r.Chance(0.3) {
+				p.StopAfter = r.Range(1, 6)
+			}
+		} else if r.Chance(0.02) {
+			p.File = -1
+		}
+		c.Paths = append(c.Paths, p)
+	}
+	return c
+}
+
+// c02EdgeTexts are hand-written inputs around every rule of the line grammar.
+var c02EdgeTexts = []string{
+	"", "\n", "\r", "\r\n", "\n\n", "x", "x\r", "Benchmark", "Benchmark\n", "BenchmarkX", "BenchmarkX\r\n", "BenchmarkX \n", "BenchmarkX\t\n", "BenchmarkX 1\n",
+	"BenchmarkX 1 2\n", "BenchmarkX 1 2 ns/op", "BenchmarkX 1 2 ns/op\r", "BenchmarkX 1 2 ns/op 3\n", "BenchmarkX 1 2 ns/op 3 MB/s\n", "Benchmark 1 2 x\n", "Benchmark\u00a01\u20032\u3000x\n",
+	"BenchmarkX\u00851\u00852\u0085x\n", "BenchmarkX\x851\x852\x85x\n", "BenchmarkX 1 2 x\xff\n", "BenchmarkX -1 2 x\n", "BenchmarkX +1 +2 x\n", "BenchmarkX 1 NaN x -Inf y +Inf z\n",
+	"BenchmarkX 1 0 ns/op -0 ns/op 0 MB/s\n", "BenchmarkX 1e3 2 x\n", "BenchmarkX 1 2e400 x\n", "BenchmarkX 1 0x1p4 x\n", "BenchmarkX 9223372036854775807 1 x\n", "BenchmarkX 9223372036854775808 1 x\n",
+	"a: 1\nBenchmarkX 1 1 x\na:\nBenchmarkY 1 1 x\na: 2\nBenchmarkZ 1 1 x\n",
+	"a: 1\nb: 2\nc: 3\na:\nBenchmarkX 1 1 x\nc: 4\nBenchmarkY 1 1 x\nb:\nc:\nBenchmarkZ 1 1 x\na: 5\nBenchmarkW 1 1 x\n",
+	"a: 1\nb: 2\nc: 3\nd: 4\nb:\nd: 5\na:\nb: 6\nBenchmarkX 1 1 x\n",
+	"a:1\nBenchmarkX 1 1 x\n", "a:\t1\nBenchmarkX 1 1 x\n", "a:  \t 1 \nBenchmarkX 1 1 x\n", "a: \nBenchmarkX 1 1 x\n", "a: 1\na: \nBenchmarkX 1 1 x\n", "a: 1\na:   \nBenchmarkX 1 1 x\n",
+	"A: 1\nBenchmarkX 1 1 x\n", "aB: 1\nBenchmarkX 1 1 x\n", "a b: 1\nBenchmarkX 1 1 x\n", "a\u00a0b: 1\nBenchmarkX 1 1 x\n", ": 1\nBenchmarkX 1 1 x\n", "a\nBenchmarkX 1 1 x\n", "a:b: c\nBenchmarkX 1 1 x\n",
+	"a: b: c\nBenchmarkX 1 1 x\n", "é: ü\nBenchmarkX 1 1 x\n", "a\xff: \xfe\nBenchmarkX 1 1 x\n", "\xffa: 1\nBenchmarkX 1 1 x\n", "a: \r\r\nBenchmarkX 1 1 x\n", "a: 1\r\r\nBenchmarkX 1 1 x\n", "a:\r\nBenchmarkX 1 1 x\r\n",
+	"a:\u00a01\nBenchmarkX 1 1 x\n", "a: \u00a01\nBenchmarkX 1 1 x\n", "1a: 1\nBenchmarkX 1 1 x\n", "-a: 1\nBenchmarkX 1 1 x\n", "a-: 1\nBenchmarkX 1 1 x\n", "a1_.*/: 1\nBenchmarkX 1 1 x\n",
+	"Unit\n", "Unit \n", "Unit x\n", "Unit x a\n", "Unit x =a\n", "Unit x a=\n", "Unit x a==\n", "Unit x a=b\nUnit x a=b\nUnit x a=c\n", "Unit ns/op better=lower\nUnit sec/op better=lower\nUnit sec/op better=higher\n",
+	"Unit ns/op a=1 b=2 bad c=3 a=1 a=2\n", "Units x a=b\n", "UnitX a=b\n", "unit x a=b\n", " Unit x a=b\n", "Unit\tx\ta=b\n", "Unit\u3000x\u3000a=b\n", "Unit x a=b\r\n", "U\n", "Un\n", "Unit: x\nBenchmarkX 1 1 x\n",
+	"benchmarkX 1 1 x\n", " BenchmarkX 1 1 x\n", "BENCHMARKX 1 1 x\n", "Benchmarking: is fun\n", "BenchmarkX 1 1 x\nBenchmarkX 1 1 x\n", "BenchmarkX 1 1 x\n\n\nBenchmarkY 2 2 y",
+	"BenchmarkX 1 1 ns/op 1 ns/op 1 ns/op\n", "BenchmarkX 1 1 \n", "BenchmarkX  1  1  x  \n", "BenchmarkX\t1\t1\tx\n", "BenchmarkX\r1\r1\rx\n", "BenchmarkX 1 1 x\rjunk\n", "BenchmarkX 1 1 x \r\n",
+	"BenchmarkX 1 1,5 x\n", "BenchmarkX 1 ١ x\n", "BenchmarkX ١ 1 x\n", "BenchmarkX 1 1_0 x\n", "BenchmarkX 1_0 1 x\n", "BenchmarkX 1 infinity x\n", "BenchmarkX 1 nan x\n", "BenchmarkX 1 .5 x 5. y\n", "BenchmarkX 1 . x\n",
+}
+
+func TestVerifC02(t *testing.T) {
+	const rule = "record sequence, positions, clones and Units() of the real reader compared with the string-based reference reader; non-trivial = at least one result and at least one of {effective config deletion, re-set after deletion, syntax-error line, unit-metadata conflict, >1024 distinct interned strings}"
+	edges := kit.Class[c02TextCase]{
+		Name: "edges",
+		Enum: func(thorough bool, yield func(c02TextCase)) {
+			for _, s := range c02EdgeTexts {
+				yield(c02TextCase{Text: kit.B(s), Name: "edge"})
+				yield(c02TextCase{Text: kit.B(s), Name: "edge", Chunk: 1})
+				yield(c02TextCase{Text: kit.B("a: 1\nBenchmarkPre 1 1 x\n" + s + "\nb: 2\nBenchmarkPost 1 1 x\n"), Name: "edge"})
+			}
+			// a line of every length around the line limit, in each position of the classification
+			for d := -2; d <= 2; d++ {
+				for _, pre := range []string{"junk ", "note: ", "BenchmarkL 1 1 ns/op 2 "} {
+					line := pre + strings.Repeat("y", refread.MaxLine+d-len(pre))
+					yield(c02TextCase{Text: kit.B("a: 1\nBenchmarkPre 1 1 x\n" + line + "\nBenchmarkPost 1 1 x\n"), Name: "edge"})
+					yield(c02TextCase{Text: kit.B(line), Name: "edge", Chunk: 4096})
+				}
+			}
+		},
+		Check: c02CheckText, NonTrivial: c02TextNonTrivial, MinNonTrivial: 30, HangIsViolation: true,
+		Rule: "hand-written inputs around every rule of the line grammar, alone, fed byte by byte and embedded between two results; lines of length limit-2..limit+2; " + rule,
+	}
+	grammar := kit.Class[c02TextCase]{
+		Name: "grammar", Quick: 6000, Thorough: 500000, Gen: c02GenGrammar,
+		Check: c02CheckText, NonTrivial: c02TextNonTrivial, MinNonTrivial: 3000, HangIsViolation: true,
+		Rule: "1-60 lines from a line grammar (config set/delete/near-miss over a small key pool, unit lines, well-formed and malformed benchmark lines with Unicode white space, junk, CR/CRLF), 30% with 1-4 byte-level mutations; 1/2 of the inputs delivered in small chunks; " + rule,
+	}
+	intern := kit.Class[c02TextCase]{
+		Name: "intern-overflow", Quick: 60, Thorough: 2500, Gen: c02GenIntern,
+		Check: c02CheckText, NonTrivial: func(c c02TextCase) bool {
+			out := refread.New().Read("x", string(c.Text), refread.Options{})
+			return out.Stats.Distinct > 1024 && out.Stats.Results > 0 && out.Stats.Deletes > 0
+		}, MinNonTrivial: 50, HangIsViolation: true,
+		Rule: "1100-1500 steps setting, deleting and re-setting distinct keys in one growing configuration, with distinct units and unit metadata; non-trivial = more than 1024 distinct strings, at least one result and one effective deletion",
+	}
+	long := kit.Class[c02TextCase]{
+		Name: "long-lines", Quick: 120, Thorough: 4000, Gen: c02GenLong,
+		Check: c02CheckText, NonTrivial: c02TextNonTrivial, MinNonTrivial: 60, HangIsViolation: true,
+		Rule: "config, benchmark, unit and junk lines of 4-60 KB, of exactly the line limit, and beyond it, followed by further results; " + rule,
+	}
+	files := kit.Class[c02FilesCase]{
+		Name: "files", Quick: 500, Thorough: 30000, Gen: c02GenFiles,
+		Check: c02CheckFiles, NonTrivial: c02FilesNonTrivial, MinNonTrivial: 250, HangIsViolation: true,
+		Rule: "1-4 temp files (grammar texts, shared small unit pool) read as 1-6 path entries with duplicates, label=path entries, '=' in names, rare missing files and over-long lines through benchfmt.Files (70%) or through one Reader with Reset, tool labels and early abandon (30%); non-trivial = at least two entries and one result",
+	}
+	kit.Run(t, "C02", edges, grammar, intern, long, files)
+}
